@@ -33,6 +33,7 @@ type FuncSpec struct {
 	Params    []string
 	Model     string
 	Optional  bool
+	Harness   bool // implementer that exists only for lemma harnesses: dispatched to only inside lemmas
 	Mode      string // int | bv
 	Level     string // full | thin
 	Pure      bool
@@ -68,6 +69,13 @@ type SpecFun struct {
 
 type SParam struct{ Name, Type string }
 
+// Pred is a named abbreviation expanded at its use site (it may read the heap of the state it is used in).
+type Pred struct {
+	Name   string
+	Params []string
+	Body   *SExpr
+}
+
 type GhostDecl struct {
 	Name string // e.g. pool.owned
 	Key  string // sort of key: ref | str
@@ -91,10 +99,11 @@ type SpecSet struct {
 	Axioms   []*Axiom
 	Guards   []Guard
 	Cleans   map[string]map[string]string // struct -> field -> condition text ("zero", "len0", "exempt:...")
+	Preds    map[string]*Pred
 }
 
 func newSpecSet() *SpecSet {
-	return &SpecSet{Funcs: map[string]*FuncSpec{}, SpecFuns: map[string]*SpecFun{}, Ghosts: map[string]*GhostDecl{}, Cleans: map[string]map[string]string{}}
+	return &SpecSet{Funcs: map[string]*FuncSpec{}, SpecFuns: map[string]*SpecFun{}, Ghosts: map[string]*GhostDecl{}, Cleans: map[string]map[string]string{}, Preds: map[string]*Pred{}}
 }
 
 var tagRe = regexp.MustCompile(`\s*\[((?:C\d+)(?:\s*,\s*C\d+)*)\]\s*$`)
@@ -229,6 +238,8 @@ func (ss *SpecSet) parseFile(path string) error {
 			cur.Trusted = true
 		case "optional":
 			cur.Optional = true
+		case "harness":
+			cur.Harness = true
 		case "maypanic":
 			cur.MayPanic = true
 		case "tags":
@@ -330,6 +341,26 @@ func (ss *SpecSet) parseFile(path string) error {
 			}
 			sf.Rec = kw == "specfunrec"
 			ss.SpecFuns[sf.Name] = sf
+		case "pred":
+			// pred name(a, b) = expr
+			lp := strings.Index(rest, "(")
+			rp := strings.Index(rest, ")")
+			eq := strings.Index(rest, "=")
+			if lp < 0 || rp < lp || eq < rp {
+				return fail("pred name(params) = expr")
+			}
+			pr := &Pred{Name: strings.TrimSpace(rest[:lp])}
+			for _, x := range strings.Split(rest[lp+1:rp], ",") {
+				if strings.TrimSpace(x) != "" {
+					pr.Params = append(pr.Params, strings.TrimSpace(x))
+				}
+			}
+			e, err := parseSExpr(strings.TrimSpace(rest[eq+1:]))
+			if err != nil {
+				return fail("%v", err)
+			}
+			pr.Body = e
+			ss.Preds[pr.Name] = pr
 		case "ghost":
 			// ghost name key val
 			f := strings.Fields(rest)
